@@ -6,6 +6,17 @@ DIFF_NOTE = ("Trusted: Lean 4.33 kernel (axioms propext, Classical.choice, Quot.
              "than verified: the Go analyser itself (hand-written Lean transcription, one function per Go function, explicit panics, fuel), "
              "float formatting of DiffInfo, x- extensions (oracle sweep only).")
 CLAIMED = {
+ "C03": {
+  "technique": "Lean 4 proof (agreement of the model of the generated binder with a reference binder for all specs and raw values of the fragment; soundness; counterexample theorems) + compiled generated servers",
+  "text": ("Proof on the simple-schema query fragment: `bindGen` transcribes what server/parameter.gotmpl emits (presence test, last value wins, empty-value rule, swag.SplitByFormat, item loop, "
+           "array validations), `bindRef` is written from the Swagger 2.0 parameter rules; for ALL parameter specs and ALL raw values: scalar_agrees (string/integer), array_agrees under "
+           "`cleanItems`, bind_sound_one/many (whatever the handler receives satisfies every declared validation), required_enforced, optional_absent_keeps_default; the hypotheses are shown "
+           "necessary by array_differs_on_blank_items and bool_garbage_accepted (known findings). Tie: generated servers with 8 random parameters are compiled and ~25 raw values per parameter "
+           "are sent; handler-reached and the bound value must equal bindGen exactly and bindRef outside the two known findings."),
+  "note": ("Trusted: Lean kernel + audited axioms; genlab server lab; encoding/json projection of the parameter struct. Modelled rather than verified: net/http query parsing, the runtime router, "
+           "swag.SplitByFormat/ConvertInt/ConvertBool (dependencies, transcribed). Outside the fragment (not claimed by the theorems, not yet sent): header, path, formData and body parameters, "
+           "number and strfmt formats, patterns, defaults, multi and nested arrays."),
+ },
  "C06": {
   "technique": "Lean 4 proof (decision-logic theorems over the authorisation model for all requirement lists and credential assignments) + compiled generated servers with stub authenticators over all credential assignments",
   "text": ("Proof: `serve` models the effective requirement (operation list if present, else global), the `.Authorized` guard of the generated ServeHTTP and the pinned runtime's "
